@@ -1218,8 +1218,12 @@ class ModelBuilder:
                     return None
             return current  # type: ignore[return-value]
         else:
-            # Search from project root
-            for task in project.tasks:
+            # Search from project root: a task declared at root level wins over a
+            # nested task that merely has the same local id; nested matches are only
+            # a fallback for references that do not name a root-level task.
+            candidates = [t for t in project.tasks if t.id == parts[0]]
+            candidates.sort(key=lambda t: t.parent is not None)
+            for task in candidates:
                 if task.id == parts[0]:
                     if len(parts) == 1:
                         return task  # type: ignore[return-value]
